@@ -35,6 +35,9 @@ func (o *outerImpl) Describe() string {
 		n, err := o.c.Make()
 		s += fmt.Sprintf(" made=%v/%v", n != nil && n.Val() == 5, err)
 	}
+	if o.c.Self != nil {
+		s += " self=(" + o.c.Self.Describe() + ")"
+	}
 	return s
 }
 
@@ -44,6 +47,8 @@ type OuterConf struct {
 	Nested ZvNested
 	List   []ZvNested
 	Make   func() (ZvNested, error)
+	Self   ZvOuter // a component of the same type (and possibly the same name) nested in this one
+	P      int     `validate:"max=100"`
 }
 
 var registered bool
@@ -61,23 +66,65 @@ func registerOnce() {
 	}, func() OuterConf { return OuterConf{A: 1, B: "default"} })
 }
 
+// laterCalls: with invalid settings, calls 2 and 3 of a factory must fail like call 1.
+func laterCalls(form string, data map[string]any) string {
+	call := func(f func() (ZvOuter, error)) (p ZvOuter, err error) {
+		defer func() {
+			if r := recover(); r != nil {
+				err = fmt.Errorf("panic %v", r)
+			}
+		}()
+		return f()
+	}
+	var f func() (ZvOuter, error)
+	switch form {
+	case "factory":
+		var h struct{ F func() ZvOuter }
+		if err := config.Decode(data, &h); err != nil {
+			return ""
+		}
+		f = func() (ZvOuter, error) { return h.F(), nil }
+	case "factory-err":
+		var h struct{ F func() (ZvOuter, error) }
+		if err := config.Decode(data, &h); err != nil {
+			return ""
+		}
+		f = h.F
+	default:
+		return ""
+	}
+	for k := 1; k <= 3; k++ {
+		if p, err := call(f); err == nil {
+			return fmt.Sprintf("call %d of the factory returned a component (%s) and no error", k, p.Describe())
+		}
+	}
+	return ""
+}
+
 func runConfigTier(out *hutil.Out) {
 	registerOnce()
 	confs := []struct {
-		name string
-		data map[string]any
-		want string
+		name    string
+		data    map[string]any
+		want    string
+		wantErr bool // the settings violate a constraint: every creation reports it
 	}{
-		{"plain", map[string]any{"type": "o", "a": 7}, "A=7 B=default"},
-		{"nested", map[string]any{"type": "o", "b": "x", "nested": map[string]any{"type": "n", "v": 3}}, "A=1 B=x nested=3"},
-		{"nested-default", map[string]any{"type": "o", "nested": map[string]any{"type": "n"}}, "A=1 B=default nested=1"},
-		{"list", map[string]any{"type": "o", "list": []any{map[string]any{"type": "n", "v": 2}, map[string]any{"type": "n"}}}, "A=1 B=default item=2 item=1"},
-		{"nested-factory", map[string]any{"type": "o", "make": map[string]any{"type": "n", "v": 5}}, "A=1 B=default made=true/<nil>"},
-		{"factory-ctor-nested", map[string]any{"type": "of", "a": 4, "nested": map[string]any{"type": "n", "v": 9}}, "A=4 B=default nested=9"},
+		{name: "self-same-name", data: map[string]any{"type": "o", "a": 7, "self": map[string]any{"type": "o", "a": 9, "b": "in"}}, want: "A=7 B=default self=(A=9 B=in)"},
+		{name: "self-in-factory-ctor", data: map[string]any{"type": "of", "a": 7, "self": map[string]any{"type": "of", "a": 9}}, want: "A=7 B=default self=(A=9 B=default)"},
+		{name: "self-twice", data: map[string]any{"type": "o", "a": 2, "self": map[string]any{"type": "o", "a": 3, "self": map[string]any{"type": "o", "a": 4}}}, want: "A=2 B=default self=(A=3 B=default self=(A=4 B=default))"},
+		{name: "invalid", data: map[string]any{"type": "o", "p": 1000}, wantErr: true},
+		{name: "invalid-factory-ctor", data: map[string]any{"type": "of", "p": 1000}, wantErr: true},
+		{name: "invalid-nested", data: map[string]any{"type": "o", "self": map[string]any{"type": "o", "p": 1000}}, wantErr: true},
+		{name: "plain", data: map[string]any{"type": "o", "a": 7}, want: "A=7 B=default"},
+		{name: "nested", data: map[string]any{"type": "o", "b": "x", "nested": map[string]any{"type": "n", "v": 3}}, want: "A=1 B=x nested=3"},
+		{name: "nested-default", data: map[string]any{"type": "o", "nested": map[string]any{"type": "n"}}, want: "A=1 B=default nested=1"},
+		{name: "list", data: map[string]any{"type": "o", "list": []any{map[string]any{"type": "n", "v": 2}, map[string]any{"type": "n"}}}, want: "A=1 B=default item=2 item=1"},
+		{name: "nested-factory", data: map[string]any{"type": "o", "make": map[string]any{"type": "n", "v": 5}}, want: "A=1 B=default made=true/<nil>"},
+		{name: "factory-ctor-nested", data: map[string]any{"type": "of", "a": 4, "nested": map[string]any{"type": "n", "v": 9}}, want: "A=4 B=default nested=9"},
 		// the key that names the plugin is matched without regard to letter case
-		{"plain-Type", map[string]any{"Type": "o", "a": 7}, "A=7 B=default"},
-		{"nested-TYPE", map[string]any{"type": "o", "b": "x", "nested": map[string]any{"TYPE": "n", "v": 3}}, "A=1 B=x nested=3"},
-		{"list-Type", map[string]any{"TYPE": "o", "list": []any{map[string]any{"Type": "n", "v": 2}, map[string]any{"type": "n"}}}, "A=1 B=default item=2 item=1"},
+		{name: "plain-Type", data: map[string]any{"Type": "o", "a": 7}, want: "A=7 B=default"},
+		{name: "nested-TYPE", data: map[string]any{"type": "o", "b": "x", "nested": map[string]any{"TYPE": "n", "v": 3}}, want: "A=1 B=x nested=3"},
+		{name: "list-Type", data: map[string]any{"TYPE": "o", "list": []any{map[string]any{"Type": "n", "v": 2}, map[string]any{"type": "n"}}}, want: "A=1 B=default item=2 item=1"},
 	}
 	for _, c := range confs {
 		for _, form := range []string{"plugin", "factory", "factory-err"} {
@@ -122,6 +169,30 @@ func runConfigTier(out *hutil.Out) {
 			}
 			out.States += int64(len(got))
 			out.Outcome("config-path", c.name+form)
+			if c.wantErr {
+				// every creation must fail: collect the calls that did not
+				bad := ""
+				switch form {
+				case "plugin":
+					if err == nil {
+						bad = "decoding the component"
+					}
+				case "factory", "factory-err":
+					if err == nil {
+						bad = fmt.Sprintf("%d product(s) %v created", len(got), got)
+					} else if len(got) > 0 {
+						bad = fmt.Sprintf("%d product(s) created before the error: %v", len(got), got)
+					}
+				}
+				if bad == "" {
+					// the first call failed; the later ones must fail too
+					bad = laterCalls(form, data)
+				}
+				if bad != "" {
+					out.Violate(key+"|INVALID-ACCEPTED", fmt.Sprintf("%s as %s: settings violate max=100 but %s", c.name, form, bad), map[string]any{"tier": "config", "case": c.name, "form": form})
+				}
+				continue
+			}
 			if err != nil {
 				out.Violate(key+"|SECOND-PRODUCT", fmt.Sprintf("%s as %s: %v (products so far: %v)", c.name, form, err, got), map[string]any{"tier": "config", "case": c.name, "form": form})
 				continue
